@@ -8,6 +8,36 @@ use crate::common::{Ctx, Tier};
 use crate::interp::{self, History, Oracles};
 use crate::runner::Property;
 use crate::strat;
+use super::c03b::WakeCase;
+use super::multi::{self, MultiCase};
+use serde::{Deserialize, Serialize};
+
+/// A sequential history for the interpreter, or a case of the
+/// multi-completion driver (multishot accept, zero-copy sends).
+#[derive(Clone, Debug, Serialize, Deserialize)]
+#[serde(untagged)]
+pub enum HCase {
+    Seq(History),
+    Multi(MultiCase),
+}
+
+fn with_multi(seq: BoxedStrategy<History>, weight: u32) -> BoxedStrategy<HCase> {
+    prop_oneof![
+        4 => seq.prop_map(HCase::Seq),
+        weight => multi::strategy().prop_map(HCase::Multi),
+    ]
+    .boxed()
+}
+
+fn run_multi(case: &MultiCase, ctx: &mut Ctx, prop: &'static str, nontrivial: &[&str]) {
+    let classes = multi::run(case, ctx, prop);
+    ctx.class("multi-completion-driver");
+    for c in &classes {
+        ctx.class(c);
+    }
+    ctx.nontrivial = classes.iter().any(|c| nontrivial.contains(c));
+    ctx.fingerprint = format!("multi|{}|{:x}", classes.join("|"), crate::common::fnv(&format!("{case:?}")) & 0xffff);
+}
 
 fn classes(ctx: &mut Ctx, feats: &BTreeSet<String>) {
     for f in feats {
@@ -22,14 +52,18 @@ const SIM_ASSUMPTION: &str = "simulated kernel obeys DESIGN.md section 3 (K1-K12
 pub struct C01;
 impl Property for C01 {
     const ID: &'static str = "C01";
-    type Case = History;
-    fn strategy(_tier: Tier) -> BoxedStrategy<History> {
-        (strat::ring_cfg(3), proptest::collection::vec(strat::step(strat::kind_memory().boxed(), 2, 5), 0..60)).prop_map(|(cfg, steps)| History { cfg, steps, teardown: None }).boxed()
+    type Case = HCase;
+    fn strategy(_tier: Tier) -> BoxedStrategy<HCase> {
+        with_multi((strat::ring_cfg(3), proptest::collection::vec(strat::step(strat::kind_memory().boxed(), 2, 5), 0..60)).prop_map(|(cfg, steps)| History { cfg, steps, teardown: None }).boxed(), 1)
     }
     fn cases(tier: Tier) -> u32 {
         tier.pick(6_000, 400_000)
     }
-    fn run(case: &History, ctx: &mut Ctx) {
+    fn run(case: &HCase, ctx: &mut Ctx) {
+        let case = match case {
+            HCase::Seq(h) => h,
+            HCase::Multi(m) => return run_multi(m, ctx, "C01", &["dropped-between-two-completions", "dropped-after-some-results"]),
+        };
         let feats = interp::execute(case, Oracles { c01: true, ..Oracles::default() }, ctx);
         ctx.nontrivial = feats.contains("dropped-while-running") && feats.iter().any(|f| f.starts_with("k:") && f != "k:truncate") || feats.contains("restart");
         classes(ctx, &feats);
@@ -46,14 +80,18 @@ impl Property for C01 {
 pub struct C02;
 impl Property for C02 {
     const ID: &'static str = "C02";
-    type Case = History;
-    fn strategy(_tier: Tier) -> BoxedStrategy<History> {
-        (strat::ring_cfg(4), proptest::collection::vec(strat::step(strat::kind_valued().boxed(), 1, 1), 0..70)).prop_map(|(cfg, steps)| History { cfg, steps, teardown: None }).boxed()
+    type Case = HCase;
+    fn strategy(_tier: Tier) -> BoxedStrategy<HCase> {
+        with_multi((strat::ring_cfg(4), proptest::collection::vec(strat::step(strat::kind_valued().boxed(), 1, 1), 0..70)).prop_map(|(cfg, steps)| History { cfg, steps, teardown: None }).boxed(), 1)
     }
     fn cases(tier: Tier) -> u32 {
         tier.pick(6_000, 400_000)
     }
-    fn run(case: &History, ctx: &mut Ctx) {
+    fn run(case: &HCase, ctx: &mut Ctx) {
+        let case = match case {
+            HCase::Seq(h) => h,
+            HCase::Multi(m) => return run_multi(m, ctx, "C02", &[">=3-results-queued", ">=3-results-in-one-poll", "zc-resolved"]),
+        };
         let feats = interp::execute(case, Oracles { c02: true, ..Oracles::default() }, ctx);
         ctx.nontrivial = feats.contains("out-of-order") || feats.contains("multishot-split");
         classes(ctx, &feats);
@@ -67,17 +105,41 @@ impl Property for C02 {
     }
 }
 
+/// C03a sequential histories or C03b scheduled programs.
+#[derive(Clone, Debug, Serialize, Deserialize)]
+#[serde(untagged)]
+pub enum C03Case {
+    Seq(History),
+    Sched(WakeCase),
+}
+
 pub struct C03;
 impl Property for C03 {
     const ID: &'static str = "C03";
-    type Case = History;
-    fn strategy(_tier: Tier) -> BoxedStrategy<History> {
-        (strat::ring_cfg(2), proptest::collection::vec(strat::step(strat::kind_basic().boxed(), 1, 1), 0..70)).prop_map(|(cfg, steps)| History { cfg, steps, teardown: None }).boxed()
+    type Case = C03Case;
+    fn strategy(_tier: Tier) -> BoxedStrategy<C03Case> {
+        let sched = (0u8..=2, 0u8..=2, proptest::collection::vec((1u8..=2, any::<bool>()), 1..=3), 1u8..=3, proptest::collection::vec(any::<bool>(), 3), proptest::collection::vec(any::<u16>(), 0..100))
+            .prop_map(|(sq_log2, gap, submitters, polls, complete_before_poll, wake_tape)| C03Case::Sched(WakeCase { sq_log2, gap, submitters, polls, complete_before_poll, wake_tape }));
+        let seq = (strat::ring_cfg(2), proptest::collection::vec(strat::step(strat::kind_basic().boxed(), 1, 1), 0..70)).prop_map(|(cfg, steps)| C03Case::Seq(History { cfg, steps, teardown: None }));
+        prop_oneof![3 => seq, 2 => sched].boxed()
     }
     fn cases(tier: Tier) -> u32 {
         tier.pick(6_000, 400_000)
     }
-    fn run(case: &History, ctx: &mut Ctx) {
+    fn run(case: &C03Case, ctx: &mut Ctx) {
+        let case = match case {
+            C03Case::Seq(h) => h,
+            C03Case::Sched(w) => {
+                let classes = super::c03b::run(w, ctx);
+                ctx.class("scheduled");
+                for c in &classes {
+                    ctx.class(c);
+                }
+                ctx.nontrivial = classes.contains(&"switch-inside-a10") && classes.contains(&"over-subscribed");
+                ctx.fingerprint = format!("sched|sq{}|gap{}|t{}|{}|{:x}", 1 << w.sq_log2.min(2), w.gap, w.submitters.len(), classes.join("|"), crate::common::fnv(&format!("{w:?}")) & 0xffff);
+                return;
+            }
+        };
         let feats = interp::execute(case, Oracles { c03: true, ..Oracles::default() }, ctx);
         ctx.nontrivial = feats.contains("waker-replaced") && feats.contains("completion-while-pending") || feats.contains("blocked-woken");
         classes(ctx, &feats);
@@ -94,14 +156,18 @@ impl Property for C03 {
 pub struct C06;
 impl Property for C06 {
     const ID: &'static str = "C06";
-    type Case = History;
-    fn strategy(_tier: Tier) -> BoxedStrategy<History> {
-        (strat::ring_cfg(3), proptest::collection::vec(strat::step(strat::kind_basic().boxed(), 1, 6), 0..70)).prop_map(|(cfg, steps)| History { cfg, steps, teardown: None }).boxed()
+    type Case = HCase;
+    fn strategy(_tier: Tier) -> BoxedStrategy<HCase> {
+        with_multi((strat::ring_cfg(3), proptest::collection::vec(strat::step(strat::kind_basic().boxed(), 1, 6), 0..70)).prop_map(|(cfg, steps)| History { cfg, steps, teardown: None }).boxed(), 1)
     }
     fn cases(tier: Tier) -> u32 {
         tier.pick(6_000, 400_000)
     }
-    fn run(case: &History, ctx: &mut Ctx) {
+    fn run(case: &HCase, ctx: &mut Ctx) {
+        let case = match case {
+            HCase::Seq(h) => h,
+            HCase::Multi(m) => return run_multi(m, ctx, "C06", &["dropped-between-two-completions", "dropped-after-some-results", "completed-after-drop"]),
+        };
         let feats = interp::execute(case, Oracles { c06: true, ..Oracles::default() }, ctx);
         ctx.nontrivial = feats.contains("dropped-while-running") && (feats.contains("completed-after-drop") || feats.contains("drop-with-full-queue") || feats.contains("cancel:Already") || feats.contains("cancel:NotFound"));
         classes(ctx, &feats);
